@@ -86,21 +86,27 @@ End Sim.
 (* ------------------------------------------------------------------ parse() without user functions *)
 Definition nofun (fe : fenv) : Prop := fe_F fe = [] /\ fe_src fe = [] /\ fe_defs fe = [] /\ fe_err fe = false.
 
-Lemma call_dyn_nofun C declared (sp : fenv * option pmap) G f sg :
+Lemma call_dyn_with_nofun pf declared (sp : fenv * option pmap) G f sg :
   nofun (fst sp) ->
-  nofun (fst (fst (call_dyn C declared sp G f sg))) /\
-  snd (call_dyn C declared sp G f sg) = resolve_call [] [] f sg.
+  nofun (fst (fst (call_dyn_with pf declared sp G f sg))) /\
+  snd (call_dyn_with pf declared sp G f sg) = resolve_call [] [] f sg.
 Proof.
-  destruct sp as [fe p]. destruct fe as [src F0 al defs calls prim err].
+  destruct sp as [fe p]. destruct fe as [src F0 al defs calls prim err rf].
   unfold nofun. cbn [fst fe_F fe_src fe_defs fe_err]. intros (HF & Hsrc & Hdefs & Herr). subst F0 src defs err.
-  unfold call_dyn. cbn [fe_calls fe_src fe_F fe_alias fe_defs fe_primary fe_err].
-  match goal with |- context [ensure_variant ?c ?fe1 ?cur f sg] =>
-    assert (Eev : ensure_variant c fe1 cur f sg = Some (fe1, p)) end.
-  { unfold ensure_variant. cbn [fe_defs fe_alias fe_src tlookup get_or sig_lookup d_promo]. reflexivity. }
+  unfold call_dyn_with. cbn [fe_calls fe_src fe_F fe_alias fe_defs fe_primary fe_err fe_refresh].
+  match goal with |- context [ensure_variant_with ?pf0 ?fe1 ?cur f sg] =>
+    assert (Eev : ensure_variant_with pf0 fe1 cur f sg = Some (fe1, p)) end.
+  { unfold ensure_variant_with. cbn [fe_defs fe_alias fe_src tlookup get_or sig_lookup d_promo]. reflexivity. }
   rewrite Eev. cbn [get_or fst snd fe_F fe_src fe_defs fe_alias fe_err].
   split; [repeat split; reflexivity|].
   unfold resolve_call. cbn [tlookup]. reflexivity.
 Qed.
+
+Lemma call_dyn_nofun C declared (sp : fenv * option pmap) G f sg :
+  nofun (fst sp) ->
+  nofun (fst (fst (call_dyn C declared sp G f sg))) /\
+  snd (call_dyn C declared sp G f sg) = resolve_call [] [] f sg.
+Proof. apply call_dyn_with_nofun. Qed.
 
 (* ------------------------------------------------------------------ association-list facts *)
 Lemma tlookup_app_new {X} x (c : X) l : tlookup x l = None -> tlookup x (l ++ [(x, c)]) = Some c.
